@@ -54,6 +54,8 @@ def run_case(case):
     # injected per-frequency permutation field, 85 % majority in the first segment
     field = np.stack([rng.permutation(K) for _ in range(F)])                            # field[f][k] = source of class k
     common = rng.permutation(K)
+    if K == 3 and case['seed'] % 2:
+        common = np.array([[1, 2, 0], [2, 0, 1]][(case['seed'] // 2) % 2])      # a global permutation that is not its own inverse
     plan = pa.alignment_plan
     for f in range(plan[0][1], plan[0][2]):
         if rng.random() < 0.85:
